@@ -20,8 +20,19 @@ MANIFEST_ENTRY = {
                 "agrees with the denotation on the pattern types of G (C33_contains_correct), union_pred is exact (C33_union_pred_exact, "
                 "`{1} or {3}` does not become `1..3`); tied to the real `erg check` / `erg run` on generated matches over Int/Nat/Str, "
                 "literal enums, intervals and unions with literal/type/wildcard arms, run on every value of a sampled domain."},
-    "level_note": "see notes/C33.md: the step `accepted ⇒ the arm patterns cover the scrutinee type` is C06_sound + exact union, which is "
-                  "proved per arm only and is false of the code where C06-derefine-unsound applies; it is exercised differentially.",
+    "level_note": "PROVED: C33_taken_matches (any table, any arm list: if some arm's run-time test holds for v, the arm the emitted code takes - arms in "
+                  "order, last arm unconditional - is one whose test holds), C33_last_arm_unconditional, C33_outcome_of_no_crash, C33_contains_correct_class/"
+                  "_refine (the hand-written contains_operator table equals the C06 denotation for Int/Nat/Str/Obj and refinements of Int/Str, of Nat when "
+                  "I>=0 :> P; under TableFacts, which C33_table_facts decides on the regenerated table), C33_union_pred_exact (every branch of union_pred "
+                  "denotes the union; `{1} or {3}` is not widened). NOT PROVED: C33_full as one statement - the step `accepted => the arm patterns cover the "
+                  "scrutinee type` needs C06_sound and exactness of Context::union beyond the refinement/refinement case; C06_sound is proved per arm only and "
+                  "is FALSE of the code (C33_witness_nonexhaustive_accepted: `f(x: 0..3) = match x: (s: Str) -> 0; (i: 0..2) -> 1` type-checks and f(3) takes arm "
+                  "0..2). That step is exercised differentially only. The contains table is hand-written, validated against the real Python function on sampled "
+                  "(pattern, value) pairs each run, not regenerated from the file. Acceptance is observed through `erg check`; the transcription `accepted` is "
+                  "compared with it and differences are reported, not required to vanish (1 of 45, 0 of 24 in the runs made). Two findings recorded, none fixed: "
+                  "non-exhaustive match accepted (root C06-derefine-unsound); the arm test raises: a non-negative integer literal arm for negative integers and strings (`f(x: Int) = match x: 0 -> 0; _ -> 1; f(-1)` dies), the Nat arm and interval arms for strings. No Rust "
+                  "harness (tie driven from checks/c33.py through the erg CLI and python3.11 only); quick tier = 24 programs, 398 s wall on the loaded machine "
+                  "(over the 3-minute target, not measured idle); Bool/Float literals, tuple/record patterns, other targets not covered; no seeded-mutation run.",
     "technique": "Lean 4 proof (induction over the arm list) + differential runs of the real checker, emitted code and contains_operator",
 }
 
